@@ -533,7 +533,10 @@ func c09Block(left bool) {
 	// two keys; each missing / a list / another type
 	s1 := c09Pre(m, "q1", "q1", 2, true)
 	s2 := c09Pre(m, "q2", "q2", 2, true)
+	// (any map the executor ranges over is ranged in every order: the keys are served in argument order)
+	vfOpt("maporder", 1)
 	got := hExec(m, vfCase("cmdcase", name), bs("q1"), bs("q2"), bs("1"))
+	vfOpt("maporder", 0)
 	// the first listed key holding a non-empty list serves the pop
 	pick := 0
 	if s1.kind == kHere {
